@@ -42,63 +42,32 @@ def intSpec {k : IntKind} {sz : IntSize} (op : BinOp) (a b : PInt k sz) : Option
 
 /-! ## T1: binary operators on the eight integer types -/
 
-/-- which instruction the generated `lower_binop` emits for each operator on `Primitive.Int k sz`
-    (operands in source order, the destination typed by the operand type or `Bool`, signed
-    comparison / division exactly on the signed types). -/
-def expectedInstr (op : BinOp) (k : IntKind) (sz : IntSize) : Option Instruction :=
-  let s := k.signed
-  match op with
-  | .Add => some (.Add (irTypeOf k sz) .lhs .rhs)
-  | .Sub => some (.Sub (irTypeOf k sz) .lhs .rhs)
-  | .Mul => some (.Mul (irTypeOf k sz) .lhs .rhs)
-  | .Div => some (.Div (irTypeOf k sz) .lhs .rhs s)
-  | .Mod => some (.Mod (irTypeOf k sz) .lhs .rhs s)
-  | .Lt => some (.IntCmp .Bool (if s then .SLt else .ULt) .lhs .rhs)
-  | .Le => some (.IntCmp .Bool (if s then .SLe else .ULe) .lhs .rhs)
-  | .Gt => some (.IntCmp .Bool (if s then .SGt else .UGt) .lhs .rhs)
-  | .Ge => some (.IntCmp .Bool (if s then .SGe else .UGe) .lhs .rhs)
-  | .Eq => some (.CallEq false .lhs .rhs)
-  | .Ne => some (.CallEq true .lhs .rhs)
-  | .And | .Or => none
-
-/-- the generated `lower_binop` is that table (11 operators × 8 types), in both profiles. -/
-theorem lower_binop_int (dbg : Bool) (op : BinOp) (k : IntKind) (sz : IntSize) (i : Instruction)
-    (h : expectedInstr op k sz = some i) :
-    lower_binop dbg op (.Primitive (.Int k sz)) = .ok i := by
-  cases op <;> cases k <;> cases sz <;> simp [expectedInstr, IntKind.signed] at h <;> subst h <;> rfl
-
 section
 variable [F : FloatOps]
+
+omit F in
+/-- wherever the language defines a result, the compiled sequence (`intRun`, see
+    `run_expected_eq` in Lemmas/Scalar) computes it. -/
+theorem intRun_of_spec {k : IntKind} {sz : IntSize} (op : BinOp) (a b : PInt k sz) (v : CVal)
+    (hv : intSpec op a b = some v) : intRun op a b = .ok v := by
+  cases op <;> simp only [intSpec, Option.some.injEq, reduceCtorEq] at hv <;> simp only [intRun]
+  case Div =>
+    split at hv
+    · rename_i hg; cases hv
+      rw [if_neg (by intro h; rcases h with h | h; exact hg.1 h; exact hg.2 h)]
+    · cases hv
+  case Mod =>
+    split at hv
+    · rename_i hg; cases hv; rw [if_neg hg]
+    · cases hv
+  all_goals rw [hv]
 
 /-- the instruction of the table, run through the generated codegen arm and CLIF semantics on the
     operands (left operand in `Side.lhs`), produces the language-defined value. -/
 theorem run_expected (dbg : Bool) (op : BinOp) (k : IntKind) (sz : IntSize) (a b : PInt k sz)
     (i : Instruction) (v : CVal) (hi : expectedInstr op k sz = some i) (hv : intSpec op a b = some v) :
     runInstr dbg i (operands (cvInt a) (cvInt b)) = .ok v := by
-  have hf := sz.cty_notFloat
-  have hcv : ∀ x : PInt k sz, (cvInt x).ty.isFloat = false := fun x => hf
-  cases op <;> simp only [expectedInstr, Option.some.injEq, reduceCtorEq] at hi <;> subst hi <;>
-    simp only [intSpec, Option.some.injEq] at hv <;>
-    simp only [runInstr, operands, hcv, Bool.false_eq_true, if_false, if_true]
-  case Add => subst hv; rw [cvInt, cvInt, cg_Add_int dbg sz.cty hf rfl, RInt.bv_add]; rfl
-  case Sub => subst hv; rw [cvInt, cvInt, cg_Sub_int dbg sz.cty hf rfl, RInt.bv_sub]; rfl
-  case Mul => subst hv; rw [cvInt, cvInt, cg_Mul_int dbg sz.cty hf rfl, RInt.bv_mul]; rfl
-  case Div =>
-    split at hv
-    · rename_i hg; cases hv
-      rw [cg_Div_pint, if_neg (by intro h; rcases h with h | h; exact hg.1 h; exact hg.2 h)]
-    · cases hv
-  case Mod =>
-    split at hv
-    · rename_i hg; cases hv; rw [cg_Mod_pint, if_neg hg]
-    · cases hv
-  case Eq => subst hv; rw [cvInt, cvInt, cg_IntCmp_int dbg _ sz.cty hf rfl, (intCmpSpec_eq a b).1]
-  case Ne => subst hv; rw [cvInt, cvInt, cg_IntCmp_int dbg _ sz.cty hf rfl, (intCmpSpec_eq a b).2]
-  all_goals
-    subst hv; rw [cvInt, cvInt, cg_IntCmp_int dbg _ sz.cty hf rfl]
-    cases k
-    · simp only [IntKind.signed, Bool.false_eq_true, if_false, intCmpSpec_unsigned a b]
-    · simp only [IntKind.signed, if_true, intCmpSpec_signed a b]
+  rw [run_expected_eq dbg op k sz a b i hi, intRun_of_spec op a b v hv]
 
 /-- **T1.**  For every integer primitive type (4 widths × 2 signednesses), every binary operator
     the language allows on it and all operands: the generated `lower_binop` yields an instruction
